@@ -17,23 +17,36 @@ LOG="$VERIF_DIR/loom/build.log"
 RUSTFLAGS="--cfg loom --cfg penguin_rs_verif" CARGO_TARGET_DIR="$VERIF_DIR/loom-target" cargo test -p penguin-mux --lib --release --offline --no-run > "$LOG" 2>&1 || { echo "BUILD FAILED (loom)"; tail -30 "$LOG"; exit 2; }
 BIN=$(ls -t "$VERIF_DIR"/loom-target/release/deps/penguin_mux-* 2>/dev/null | grep -v '\.d$' | head -1)
 [ -x "$BIN" ] || { echo "no test binary"; exit 2; }
-"$BIN" --list 2>/dev/null | grep -q verif_loom_two_writers || { echo "HARNESS ERROR: hook module verif_loom is not compiled in"; exit 2; }
+"$BIN" --list 2>/dev/null | grep -q verif_loom_flow_ids || { echo "HARNESS ERROR: hook module verif_loom is not compiled in"; exit 2; }
 mkdir -p "$VERIF_DIR/replays" "$VERIF_DIR/evidence"
 run_one() { # scenario bound -> prints output, returns status
   local T=verif_loom_writer_vs_task
-  case "$1" in *,w2,*) T=verif_loom_two_writers;; esac
+  case "$1" in *,w2,*) T=verif_loom_two_writers;; ids,*) T=verif_loom_flow_ids;; esac
   VERIF_LOOM_SCENARIO="$1" VERIF_LOOM_PREEMPTION_BOUND="$2" LOOM_MAX_BRANCHES=100000 "$BIN" $T --exact verif_loom::$T --nocapture --test-threads=1 2>&1
 }
 if [ -n "$REPLAY" ]; then
   SC=$(python3 -c "import json,sys;print(json.load(open(sys.argv[1]))['plan']['scenario'])" "$REPLAY")
   PB=$(python3 -c "import json,sys;print(json.load(open(sys.argv[1]))['plan']['preemption_bound'])" "$REPLAY")
-  OUT=$(run_one "$SC" "$PB"); echo "$OUT" | grep -E "LOST WAKEUP|CONSERVATION|CREDIT|CLOSED|PROGRESS|VERIF_LOOM" | head -3
-  if echo "$OUT" | grep -q "test result: FAILED"; then echo "VIOLATION property=C12 replay=$REPLAY"; exit 1; fi
+  OUT=$(run_one "$SC" "$PB"); echo "$OUT" | grep -E "LOST WAKEUP|CONSERVATION|CREDIT|CLOSED|PROGRESS|FLOWID|VERIF_LOOM" | head -3
+  if echo "$OUT" | grep -q "test result: FAILED"; then echo "VIOLATION property=$ID replay=$REPLAY"; exit 1; fi
   exit 0
 fi
 if [ "$TIER" = "thorough" ]; then PB=5; else PB=3; fi
-python3 - "$SEED" > /tmp/.loom_scen.$$ <<'PY'
+python3 - "$SEED" "$ID" > /tmp/.loom_scen.$$ <<'PY'
 import sys, random
+if sys.argv[2] == "C07":
+    # application threads allocating flow ids (o = open, b = bind request) and the connection task
+    # handling the peer's Connect (p<id>), over a generator scripted to collide
+    two = ["7+7","7+7+9","0+7+7","7+0+7","1+2","7+7+7"]
+    onep = ["7","7+9","0+7","9","7+7"]
+    threep = ["7+7","7+7+9","7+9","0+7+7","1+2"]
+    three = ["5+5+5","5+5+6","5+6+5","1+2+3"]
+    sc  = [f"ids,{a},{x}" for a in ("oo","ob","bb") for x in two]
+    sc += [f"ids,{a}p7,{x}" for a in ("o","b") for x in onep] + ["ids,op0,3","ids,bp0,0+3"]
+    sc += [f"ids,{a}p7,{x}" for a in ("oo","ob","bb") for x in threep]
+    sc += [f"ids,{a},{x}" for a in ("ooo","oob","obb") for x in three]
+    random.Random(int(sys.argv[1])).shuffle(sc)
+    print("\n".join(sc)); sys.exit(0)
 ops = ["a1","a2","c","a1+a1","a1+c","c+a1","a2+c","c+a2","a1+a2","a1+a1+c","a1+c+a1","c+a1+a1"]
 sc = [f"{c},{p},{o}" for c in (0,1,2) for p in (1,2,3) for o in ops]
 # two writers racing for credit on one stream (poll_obtain_write_permission takes &self)
@@ -50,18 +63,31 @@ while read -r SC; do
   [ $N -le 3 ] && SAMPLES="$SAMPLES{\"scenario\":\"$SC\",\"interleavings\":$E},"
   if echo "$OUT" | grep -q "test result: FAILED\|panicked"; then
     VIOL=$((VIOL+1))
-    MSG=$(echo "$OUT" | grep -E "LOST WAKEUP|CONSERVATION|CREDIT|CLOSED|PROGRESS|panicked" | head -2 | tr '\n' ' ' | cut -c1-400)
-    R="$VERIF_DIR/replays/C12-loom-$(echo "$SC" | tr ',+' '__').json"
-    python3 - "$R" "$SC" "$PB" "$MSG" <<'PY'
+    MSG=$(echo "$OUT" | grep -E "LOST WAKEUP|CONSERVATION|CREDIT|CLOSED|PROGRESS|FLOWID|panicked" | head -2 | tr '\n' ' ' | cut -c1-400)
+    R="$VERIF_DIR/replays/$ID-loom-$(echo "$SC" | tr ',+' '__').json"
+    python3 - "$R" "$SC" "$PB" "$MSG" "$ID" <<'PY'
 import json,sys
-json.dump({"property":"C12","engine":"loomsim","class":"C12:"+("lost-wakeup" if "LOST WAKEUP" in sys.argv[4] else "credit-race"),"plan":{"scenario":sys.argv[2],"preemption_bound":int(sys.argv[3])},"expect":{"violation":sys.argv[4]},"note":"loom's DFS is deterministic: re-running the scenario reproduces the same failing interleaving"}, open(sys.argv[1],"w"), indent=1)
+json.dump({"property":sys.argv[5],"engine":"loomsim","class":sys.argv[5]+":"+("flow-id-race" if sys.argv[5]=="C07" else "lost-wakeup" if "LOST WAKEUP" in sys.argv[4] else "credit-race"),"plan":{"scenario":sys.argv[2],"preemption_bound":int(sys.argv[3])},"expect":{"violation":sys.argv[4]},"note":"loom's DFS is deterministic: re-running the scenario reproduces the same failing interleaving"}, open(sys.argv[1],"w"), indent=1)
 PY
-    [ $VIOL -le 3 ] && { echo "violation scenario=$SC : $MSG"; echo "VIOLATION property=C12 replay=$R"; }
+    [ $VIOL -le 3 ] && { echo "violation scenario=$SC : $MSG"; echo "VIOLATION property=$ID replay=$R"; }
     FAILED_SC="$FAILED_SC $SC"
   fi
 done < /tmp/.loom_scen.$$
 rm -f /tmp/.loom_scen.$$
 T1=$(date +%s.%N)
+if [ "$ID" = "C07" ]; then
+python3 - "$VERIF_DIR/loom/C07-part.json" "$TIER" "$SEED" "$N" "$EXEC" "$VIOL" "$(echo "$T1 - $T0" | bc)" "[${SAMPLES%,}]" "$PB" <<'PY'
+import json,sys
+out,tier,seed,n,ex,viol,wall,samples,pb=sys.argv[1:10]
+json.dump({"engine":"loomsim","scenarios":int(n),"interleavings":int(ex),"preemption_bound":int(pb),"violations":int(viol),"wall_s":float(wall),"samples":json.loads(samples),
+ "rule":"scenario = 2 or 3 threads over one real Multiplexor/Task pair sharing the flow map: application threads in Multiplexor::insert_new_flow (the id-allocation step of new_stream_channel 'o' and request_bind 'b') and the connection task in process_frame(Connect id) 'p<id>', with the flow-id generator scripted to collide (and to yield 0); each of the "+n+" scenarios is explored by loom's DFS over every interleaving of the lock and atomic operations up to preemption bound "+pb+"; oracles: ids handed out are non-zero and pairwise distinct, no pending slot is overwritten, the peer's Connect gets exactly one of Acknowledge/Reset and Acknowledge only for an id no local request holds, the map and the accept queue hold exactly the flows accounted for",
+ "components_real":["Multiplexor::new_detailed","Multiplexor::insert_new_flow","Task::process_frame (Connect arm, con_recv_new_stream, new_stream_shared)","hashmap::next_available_nonzero_key","penguin_mux::loom shim (loom RwLock, Mutex, Arc, atomics)","tokio mpsc/oneshot under cfg(loom)"],
+ "components_stub":["thread scheduler and memory model (loom)","transport (never touched)","flow-id generator (scripted)"]}, open(out,"w"), indent=1)
+PY
+echo "C07(loom) $TIER seed=$SEED scenarios=$N interleavings=$EXEC violations=$VIOL"
+[ $VIOL -gt 0 ] && exit 1
+exit 0
+fi
 python3 - "$VERIF_DIR/evidence/C12.json" "$TIER" "$SEED" "$N" "$EXEC" "$VIOL" "$(echo "$T1 - $T0" | bc)" "[${SAMPLES%,}]" "$PB" <<'PY'
 import json,sys
 out,tier,seed,n,ex,viol,wall,samples,pb=sys.argv[1:10]
